@@ -1,9 +1,9 @@
 SPECIFICATION Spec
 CONSTANTS
   TW = 2
-  MaxN = 9
+  MaxN = 6
   Deltas = {0, 1, 3}
-  Guard1 = TRUE
+  Guard1 = FALSE
   Guard4 = TRUE
   EdgeSlack = 0
   ExpLess = 0
